@@ -30,6 +30,11 @@ CHECKS = {
          "Per seeded snapshot pair (all 31 retainable value shapes, boundary bit patterns, nested containers): clean round trip; then for EVERY prefix of the file-system call sequence of store(s_new) and sampled byte cuts of each write, the disk a dying process leaves is materialised and load() must return exactly s_old or s_new (never Err, empty or mixed); short writes and EINTR must be absorbed; every truncation and seeded bit flips / length blow-ups / splices / garbage / 200k-deep nesting of the stored bytes must load as Ok or Err with no panic, abort or single allocation beyond 64x file size. Crash points are enumerated completely per pair; pairs and corruptions are sampled.",
          "Trusts the fs shim (H3) logging every mutation FileRetainStore performs and the process-death disk model (completed system calls visible, last write possibly torn). Power-loss reordering is not judged.",
          "DESIGN.md section 3 C10"),
+ "C14": ("exploration",
+         "deterministic simulation: simulated editor (UTF-16 reference buffer) vs the real language server over an in-process transport; seeded change-notification histories; lock-step text equality, position round trips, twin-server and ASCII-projection-server answer comparison",
+         "Seeded search over change histories (insert/delete/replace, multi-change batches, full-text changes, positions at/after line end and EOF, close/re-open, several documents; texts with Latin-1, CJK, astral, ZWJ, combining marks, CRLF/lone CR/mixed terminators) against the real StLanguageServer behind tower_lsp::LspService driven in-process: after every notification the server's document text must equal the editor's buffer byte for byte; offset<->position conversion must be the identity on every denotable boundary; at query points documentSymbol / semanticTokens (full, delta, range) / diagnostics / formatting / rangeFormatting / documentHighlight must equal those of a twin server that only saw the final text, and positions must equal those of an ASCII/LF projection of the text. Sampling, not proof.",
+         "Trusts the editor model (LSP 3.17 position rules), the H8 accessors, and that tower-lsp's in-process Service::call path equals the stdio path. stdio transport and background indexer are not run. Two open findings (rangeFormatting on lone-CR documents, semanticTokens/range origin) are pinned.",
+         "DESIGN.md section 5 C14"),
  "C09": ("exploration",
          "deterministic simulation: seeded retain-qualified programs x histories of cycles / restarts / saves / power cycles / value faults, differential twin (fresh runtime + model's retained set) driven in lock-step",
          "Seeded search over programs (13 retainable shapes x 4 qualifiers x global/program level, SINGLE variable with seeded init and qualifier, event + cyclic + background programs, task-bound FB instance, %I/%Q bindings, VAR_ACCESS paths) and histories; after every warm/cold restart and power cycle a newly built runtime plus the model's retained set is driven with the same operations and compared after every one: all variables, output image, time, cycle counter, fault latch, executed tasks, access-path reads. Sampling, not proof.",
